@@ -27,7 +27,7 @@ from Cryptodome.PublicKey import ECC, RSA
 from Cryptodome.Signature import DSS, pkcs1_15
 
 import ndn.encoding as enc
-import ndn.utils as ndn_utils
+from mc.ndnenv import owned_env
 from ndn.security import KeychainSqlite3, TpmFile
 from ndn.security.tpm import tpm_file as tpm_file_mod
 from ndn.app_support import security_v2 as sv2
@@ -155,10 +155,11 @@ class World:
         self.pib = os.path.join(self.dir, 'pib.db')
         self.tpmdir = os.path.join(self.dir, 'ndnsec-key-file')
         self.steps = Steps()
-        self.old = (ndn_utils.time, tpm_file_mod.RSA, tpm_file_mod.ECC)
+        self.old = (None, tpm_file_mod.RSA, tpm_file_mod.ECC)
+        self.env = owned_env(clock=Clock(), seed=15)
+        self.env.__enter__()
         self.old_os = tpm_file_mod.os
         tpm_file_mod.os = OsProxy(self.steps)
-        ndn_utils.time = Clock()
         tpm_file_mod.RSA = KeyPool(RSA, ['rsa2048_0', 'rsa2048_1', 'rsa2048_2', 'rsa2048_3'])
         tpm_file_mod.ECC = KeyPool(ECC, ['ec256_0', 'ec256_1', 'ec256_2', 'ec256_3', 'ec256_4', 'ec256_5'])
         self.rnd = owned_random('c15')
@@ -197,7 +198,8 @@ class World:
         finally:
             self.now.__exit__(None, None, None)
             self.rnd.__exit__(None, None, None)
-            ndn_utils.time, tpm_file_mod.RSA, tpm_file_mod.ECC = self.old
+            _, tpm_file_mod.RSA, tpm_file_mod.ECC = self.old
+            self.env.__exit__(None, None, None)
             tpm_file_mod.os = self.old_os
             shutil.rmtree(self.dir, ignore_errors=True)
 
